@@ -9,6 +9,7 @@ from vp.engine import SubCheck
 
 PROPERTY = "C01"
 RULE = (
+    "(extended) every constructed object is also put through additive arithmetic (x+c, c-x) and the native / slim / round-trip forms of the derived object are checked: masked positions of the native form stay zero. "
     "enum2d: every boolean mask with >=1 unmasked pixel on every shape with H*W<=12 (quick) / <=16 "
     "(thorough) with values 1..H*W, checked for Array2D/Grid2D/VectorYX2D in both storage modes and "
     "both input forms plus the mask's index lists; enum1d: every 1D mask of length<=10/14; given2d: "
@@ -17,6 +18,7 @@ RULE = (
     "has masked and unmasked pixels and its unmasked set is not one solid rectangle; distinct = SHA-1 of "
     "the canonical case."
 )
+TECHNIQUE = "exhaustive enumeration of all small masks plus Hypothesis-generated masks/values against a numpy boolean-indexing reference model and round trips"
 ASSUMPTIONS = [
     "numpy boolean indexing / argwhere in C order is the reference for 'row-major order'",
     "numba is absent, so the @jit kernels run as plain Python (same source, no compilation step)",
